@@ -1,14 +1,14 @@
 SPECIFICATION Spec
 CONSTANTS
   Dev = "none"
-  Periods = {2, 4}
+  Periods = {2}
   Mult2s = {2, 3, 5}
   Lookbacks = {0, 2}
   Tables <- TablesThorough
   Aligns = {0, 3, 4}
   Inits = {0, 2}
-  MaxCerts = 5
-  Skews = {0, 1}
+  MaxCerts = 4
+  Skews = {1}
   Offsets <- OffsetsAll
 INVARIANTS AfterBase Alignment ClosedFormHolds Monotone
 CHECK_DEADLOCK FALSE
